@@ -109,6 +109,39 @@ pub fn check_alg<S: Alg>(c: &Case, ctx: &mut CaseCtx, always_hiding: bool) -> Re
         }
     }
 
+    if always_hiding {
+        // a scheme that always blinds (Hyrax): commitment minus the blinding term of the returned state
+        // is the naive key-defined sum, part by part (row by row)
+        for (name, poly) in [("p", &p), ("q", &q)] {
+            let lp = LabeledPolynomial::new(name.into(), poly.clone(), None, None);
+            let (cm, st) = match commit_one::<S>(&keys, &lp, c.scn.seeds[0]) {
+                Out::Ok(x) => x,
+                o => return ctx.fail(sig(P, S::NAME, "commit", o.kind()), format!("commit({name}) -> {}", o.describe_nodebug())),
+            };
+            let naive = match S::naive_parts(&keys, poly, None) {
+                Ok(v) => v,
+                Err(e) => return ctx.fail(sig(P, S::NAME, "naive", "undefined"), e),
+            };
+            let parts = S::comm_parts(&cm);
+            let blind = match S::blinding(&keys, &st, None) {
+                Ok(b) => b,
+                Err(e) => return ctx.fail(sig(P, S::NAME, "state", "unreadable"), e),
+            };
+            ctx.check(parts.len() == naive.len() && blind.len() == naive.len(), sig(P, S::NAME, "commit", "part_count"), || {
+                format!("{} commitment parts, {} blinders, {} rows expected", parts.len(), blind.len(), naive.len())
+            })?;
+            for k in 0..parts.len() {
+                let term = blind[k].as_ref().map(|b| b.term).unwrap_or(S::Grp::zero());
+                ctx.check(parts[k] - term == naive[k], sig(P, S::NAME, "commit", "not_key_defined_sum"), || {
+                    format!("commit({name}) part {k}: commitment minus its blinding term differs from the naive sum over the key")
+                })?;
+            }
+            if S::is_zero_poly(poly) {
+                ctx.check(naive.iter().all(|x| x.is_zero()), sig(P, "harness", "naive", "zero"), || "naive commitment of zero".into())?;
+            }
+        }
+    }
+
     // ---- additivity: commit(a p + b q) == a commit(p) + b commit(q), parts and randomness --------
     let a: S::F = c.a.to_f();
     let bb: S::F = c.b.to_f();
@@ -137,6 +170,18 @@ pub fn check_alg<S: Alg>(c: &Case, ctx: &mut CaseCtx, always_hiding: bool) -> Re
                     })?;
                 }
                 ctx.label("additivity_checked");
+            } else if always_hiding {
+                // blinders combine with the same coefficients
+                if let (Ok(bp), Ok(bq)) = (S::blinding(&keys, &sp, bound), S::blinding(&keys, &sq, bound)) {
+                    for k in 0..comb.len() {
+                        let tp = bp.get(k).and_then(|x| x.as_ref()).map(|x| x.term).unwrap_or(S::Grp::zero());
+                        let tq = bq.get(k).and_then(|x| x.as_ref()).map(|x| x.term).unwrap_or(S::Grp::zero());
+                        ctx.check(comb[k] - naive_lin[k] == tp * a + tq * bb, sig(P, S::NAME, "commit", "not_additive"), || {
+                            format!("part {k}: a*C_p + b*C_q - naive(a*p + b*q) != a*blind_p + b*blind_q")
+                        })?;
+                    }
+                    ctx.label("additivity_checked");
+                }
             } else if let Some(r) = S::combine_states(a, &sp, bb, &sq) {
                 // homomorphic randomness: the combined state must open the combined commitment
                 match S::blinding(&keys, &r, bound) {
@@ -326,6 +371,7 @@ pub fn spec() -> PropertySpec {
     add!(Sonic, 300, 3000, 4, false);
     add!(Ipa, 300, 3000, 4, false);
     add!(Pst13, 240, 2400, 4, false);
+    add!(Hyrax, 200, 2000, 4, true);
     macro_rules! addl {
         ($s:ty, $q:expr, $t:expr, $sh:expr) => {
             units.push(PropUnit::new(
